@@ -3,6 +3,7 @@
 //!   record <driver> <out.ndjson> [args]  impl -> spec (M3): run a driver, log events for TLC
 mod cb;
 mod conc;
+mod corpus;
 mod cos;
 mod hist;
 mod lists;
@@ -87,6 +88,7 @@ fn main() {
                 "c18" => cos::record_c18(&args[3], seed, n),
                 "c12" => req::record_c12(&args[3], seed, n),
                 "c11" => lists::record_c11(&args[3], seed, n),
+                "c01" => corpus::record_c01(&args[3], seed, n, args.get(6).and_then(|s| s.parse().ok()).unwrap_or(40)),
                 "c20" => cb::record_c20(&args[3], seed, n, args.get(6).map(|s| s.as_str()).unwrap_or("")),
                 other => {
                     eprintln!("harness: unknown driver {:?}", other);
